@@ -20,6 +20,7 @@ def run(ctx):
     nl = formula.r_one_and_lmidom(ctx)
     formula.r_statpair(ctx)
     formula.r_domain(ctx)
+    formula.r_regen(ctx)
     ctx.floor("class families", len(ca.families), 24)
     ctx.floor("class conditions", n, 40)
     ctx.floor("two-list call sites", sites, 27)
